@@ -66,6 +66,19 @@ pub fn script_for(b: &Board, rng: &mut Rng) -> String {
             it.set_iterator_mask(m);
             s.push_str(&format!(" m{}=0", m.0));
             drain(&mut it, &mut s, 400);
+            // removals between two mask passes (the previous mask is exhausted): moves of pieces
+            // that have already yielded some of their moves are the interesting ones
+            if !legal.is_empty() && rng.chance(1, 2) {
+                if rng.chance(3, 4) {
+                    let m = *rng.pick(&legal);
+                    let r = it.remove_move(m);
+                    s.push_str(&format!(" r{}={}", mv_str(&m).replace(',', "/"), r as u8));
+                } else {
+                    let mask = BitBoard::from_square(rng.pick(&legal).get_dest()) | BitBoard::from_square(rng.pick(&legal).get_dest());
+                    it.remove_mask(mask);
+                    s.push_str(&format!(" k{}=0", mask.0));
+                }
+            }
         }
     }
     it.set_iterator_mask(!EMPTY);
